@@ -7,6 +7,8 @@ CONSTANTS
   MCMaxOps = 3
 INVARIANT RoundTrip
 INVARIANT ExportIsCurrent
+INVARIANT ConversionIdentity
+INVARIANT RoutesKeepPoint
 INVARIANT OpsEffect
 INVARIANT AmbiguityRule
 INVARIANT DetectExact
